@@ -1,13 +1,151 @@
-/- C02 — property theorems (placeholder while the pipeline is being tied; replaced below). -/
+/-
+  C02 — Interests go only to FIB next hops, without loops or duplicate forwarding.
+  Property theorems over the shared model `Fw` (C01/Fw.lean), for EVERY state `s` (hence every
+  reachable one), every Interest, both strategies, every FIB, every oracle value (`tie` = order
+  chosen by the unstable sort among equal costs, `pick` = Content Store walk order).
+  Helper lemmas: C01/FwLemmas.lean, C01/FwLemmas2.lean.
+-/
 import NdnVerif.C02.Model
+import NdnVerif.C01.FwLemmas
+import NdnVerif.C01.FwLemmas2
 namespace Ndn.Fw.C02
-open Ndn Ndn.Fw
+open Ndn Ndn.Fw Ndn.Fw.Spec
 
-theorem hop0_dropped (s : St) (f : FaceId) (i : Interest) (tie : List FaceId) (pick : Nat)
-    (h : i.hop = some 0) : onInterest s f i tie pick = (s, []) := by
-  unfold onInterest
+/-- the sends of an Interest arrival that are Interests -/
+def fwd (s : St) (f : FaceId) (i : Interest) (tie : List FaceId) (pick : Nat) : List Send :=
+  (step s (.interest f i tie pick)).2.filter (!·.isData)
+
+theorem mem_fwd {s f i tie pick snd} (h : snd ∈ fwd s f i tie pick) :
+    ∃ hop tok, hopStep i.hop = some hop ∧ IsFwd s.faces f i hop tok (nextHopCands s i) snd := by
+  unfold fwd at h
+  simp only [step, List.mem_filter] at h
+  rcases onInterest_out s f i tie pick with h0 | ⟨ce, h1, _⟩ | ⟨hop, tok, hh, hfw⟩
+  · rw [h0] at h; simp at h
+  · obtain ⟨hmem, hnd⟩ := h
+    rw [h1] at hmem
+    simp at hmem
+    subst hmem
+    simp [Send.isData] at hnd
+  · exact ⟨hop, tok, hh, hfw snd h.1⟩
+
+/-- An Interest is sent upstream only on a face that is a next hop of the longest-prefix FIB entry for
+    its name — or for its first forwarding hint when no hint lies in the producer region — or on the
+    consumer-chosen next hop (NextHopFaceId). -/
+theorem interest_sends_in_fib (s : St) (f : FaceId) (i : Interest) (tie : List FaceId) (pick : Nat) (snd : Send)
+    (h : snd ∈ fwd s f i tie pick) :
+    (i.nextHop = none ∧ snd.face ∈ (lpmNextHops s.fib (lookupName s.regions i)).map (·.1)) ∨
+    i.nextHop = some snd.face := by
+  obtain ⟨hop, tok, _, g, rfl, _, hc⟩ := mem_fwd h
+  unfold nextHopCands at hc
+  cases hn : i.nextHop with
+  | none => left; simp only [hn] at hc; exact ⟨rfl, hc⟩
+  | some g' => right; simp only [hn, List.mem_singleton] at hc; simp [Send.face, hc]
+
+/-- forwarding hint / producer region rule: the name looked up in the FIB is the Interest name when
+    there is no hint or some hint has a producer-region name as a prefix, else the FIRST hint. -/
+theorem lookup_name_rule (regions : List Name) (i : Interest) :
+    lookupName regions i =
+      if (i.hints.any fun h => regions.any fun r => r.isPrefixOf h) = true then i.name
+      else i.hints.head?.getD i.name := by
+  unfold lookupName fhName
+  split <;> simp
+
+/-- never back out of the point-to-point (or multi-access) face it arrived on -/
+theorem no_uturn_p2p (s : St) (f : FaceId) (i : Interest) (tie : List FaceId) (pick : Nat) (snd : Send)
+    (h : snd ∈ fwd s f i tie pick) (hface : snd.face = f) :
+    ∃ fc, faceOf s.faces f = some fc ∧ fc.link = .adhoc := by
+  obtain ⟨hop, tok, _, g, rfl, hu, _⟩ := mem_fwd h
+  obtain ⟨fc, hfc, hut, _, _⟩ := usableOut_spec hu
+  simp only [Send.face] at hface
+  subst hface
+  refine ⟨fc, hfc, ?_⟩
+  cases hl : fc.link with
+  | adhoc => rfl
+  | p2p => exact absurd ⟨rfl, by simp [hl]⟩ hut
+  | multi => exact absurd ⟨rfl, by simp [hl]⟩ hut
+
+/-- every forwarded copy carries the unchanged name and the hop limit reduced by one (absent stays
+    absent), and is never sent to a non-local face once the hop limit has reached zero -/
+theorem forwarded_hop_minus_one (s : St) (f : FaceId) (i : Interest) (tie : List FaceId) (pick : Nat) (snd : Send)
+    (h : snd ∈ fwd s f i tie pick) :
+    ∃ g tok hop, snd = .interest g i.name hop (.mine tok) ∧
+      (i.hop = none ∧ hop = none ∨ ∃ k, i.hop = some (k + 1) ∧ hop = some k) ∧
+      (hop = some 0 → nonLocal s.faces g = false) := by
+  obtain ⟨hop, tok, hh, g, rfl, hu, _⟩ := mem_fwd h
+  refine ⟨g, tok, hop, rfl, ?_, ?_⟩
+  · cases hi : i.hop with
+    | none => simp [hi, hopStep] at hh; left; exact ⟨rfl, hh.symm⟩
+    | some k =>
+      cases k with
+      | zero => simp [hi, hopStep] at hh
+      | succ k => simp [hi, hopStep] at hh; right; exact ⟨k, rfl, hh.symm⟩
+  · intro h0
+    obtain ⟨fc, hfc, _, hz, _⟩ := usableOut_spec hu
+    simp only [nonLocal, hfc]
+    cases hl : fc.isLocal with
+    | true => rfl
+    | false => exact absurd ⟨h0, hl⟩ hz
+
+/-- an Interest arriving with hop limit zero is not forwarded (and changes nothing) -/
+theorem hop0_not_forwarded (s : St) (f : FaceId) (i : Interest) (tie : List FaceId) (pick : Nat)
+    (h : i.hop = some 0) : step s (.interest f i tie pick) = (s, []) := by
+  simp only [step, onInterest]
   cases faceOf s.faces f with
   | none => rfl
   | some inF => simp [h, hopStep]
+
+/-- an Interest lacking a nonce is not forwarded (and changes nothing) -/
+theorem no_nonce_not_forwarded (s : St) (f : FaceId) (i : Interest) (tie : List FaceId) (pick : Nat)
+    (h : i.nonce = none) : step s (.interest f i tie pick) = (s, []) := by
+  simp only [step, onInterest]
+  cases faceOf s.faces f with
+  | none => rfl
+  | some inF =>
+    cases hopStep i.hop with
+    | none => rfl
+    | some hop => simp only [h]; split <;> rfl
+
+/-- an Interest whose (name, nonce) is recorded as dead is not forwarded (and changes nothing) -/
+theorem dead_nonce_not_forwarded (s : St) (f : FaceId) (i : Interest) (tie : List FaceId) (pick : Nat) (nonce : Nat)
+    (hn : i.nonce = some nonce) (hd : dnlHas s.dnl i.name nonce = true) :
+    step s (.interest f i tie pick) = (s, []) := by
+  simp only [step, onInterest]
+  cases faceOf s.faces f with
+  | none => rfl
+  | some inF =>
+    cases hopStep i.hop with
+    | none => rfl
+    | some hop => simp only [hn, hd]; split <;> rfl
+
+/-- an Interest repeating the nonce of one still pending from ANOTHER face (same PIT entry: same name,
+    CanBePrefix, MustBeFresh, forwarding hint) is not forwarded, is not answered from the cache, and
+    leaves the PIT as it was -/
+theorem dup_nonce_not_forwarded (s : St) (f : FaceId) (i : Interest) (tie : List FaceId) (pick : Nat) (nonce : Nat)
+    (e : Entry) (r : InRec)
+    (hn : i.nonce = some nonce)
+    (he : s.pit.find? (·.hasKey i.name i.cbp i.mbf (fhName s.regions i.hints)) = some e)
+    (hr : r ∈ e.inRecs) (hface : r.face ≠ f) (hnonce : r.nonce = nonce) :
+    step s (.interest f i tie pick) = (s, []) := by
+  simp only [step, onInterest]
+  cases faceOf s.faces f with
+  | none => rfl
+  | some inF =>
+    cases hopStep i.hop with
+    | none => rfl
+    | some hop =>
+      simp only [hn]
+      split
+      · rfl
+      · split
+        · rfl
+        · have hdup : (e.inRecs.any fun r => r.face != f && r.nonce == nonce) = true := by
+            simp only [List.any_eq_true, Bool.and_eq_true, bne_iff_ne, beq_iff_eq]
+            exact ⟨r, hr, hface, hnonce⟩
+          simp [insertInterest, he, hdup]
+
+example :
+    let e : Entry := ⟨[⟨8, [97]⟩], false, false, none, 0, [⟨2, 7, 1000, []⟩], [], false, some 1000⟩
+    let s : St := { faces := [⟨1, true, .p2p⟩, ⟨2, true, .p2p⟩, ⟨3, true, .p2p⟩], fib := [([], [(3, 1)])], pit := [e], nextTok := 1 }
+    step s (.interest 1 { name := [⟨8, [97]⟩], nonce := some 7 } [] 0) = (s, []) := by decide
 
 end Ndn.Fw.C02
